@@ -33,7 +33,9 @@ RULE = ("E1: documents of <= 3 nodes (C01 alphabet) whose keys a/b are "
         "each (13 variants . / [ ] ( ) ' \" space ^ $ %% \\, 5 variants moving the keys onto -1 / 0 / 12 / '-1' / 'b c', plus the plain "
         "variant) x every path of <= 2 segments from a %d-item vocabulary "
         "(C01 fragment + has_child/min/max/unique/distinct/parent) and 102 "
-        "three-segment paths <key|index>/<*|**>/<keyword|key|index>; E2: "
+        "three-segment paths <key|index>/<*|**>/<keyword|key|index>; three "
+        "anchored documents x 20 paths that climb with parent(n) from a "
+        "node named by its anchor; E2: "
         "Hypothesis documents with anchors/aliases x derived paths. Every "
         "non-virtual result of the required query is checked for (a) "
         "parent[parentref] is node, (b) ancestry chain from the root, (c) "
@@ -138,9 +140,11 @@ def check_results(doc, text, ptext, res, label_variant=None):
                  "%r became %r" % (q_before, str(qpath)))
     for idx, nc in enumerate(results):
         if type(nc.node) is list or real.is_nodecoords(nc.node) or \
-                type(nc.parent) is list:
+                type(nc.parent) is list or \
+                any(type(link[0]) is list for link in (nc.ancestry or [])):
             # slices / collectors, and nodes reached through such a virtual
-            # list, designate no single document position
+            # list (anywhere up their ancestry), designate no single
+            # document position
             res.label("virtual-skipped")
             continue
         sub = dict(case, result=idx)
@@ -342,6 +346,7 @@ def plan(tier, seed):
         for i in range(nsh):
             shards.append({"kind": "grid", "nmin": 4, "nmax": 4, "part": i,
                            "parts": nsh, "stride": 40, "offset": seed})
+    shards.append({"kind": "anchored"})
     nh, per = (16, 200) if tier == "quick" else (64, 2000)
     for i in range(nh):
         shards.append({"kind": "hyp", "seed": seed * 1000 + i,
@@ -380,9 +385,33 @@ def run_shard(shard):
                         (di * 31 + pi + shard["offset"]) % shard["stride"]:
                     continue
                 check_results(doc, text, ptext, res, vname)
+    elif shard["kind"] == "anchored":
+        for text, plist in ANCHORED_CASES:
+            doc, ok = gdocs.load(text)
+            if not ok:
+                raise RuntimeError("anchored doc does not load: %r" % text)
+            for ptext in plist:
+                check_results(doc, text, ptext, res, "anchor-segment")
     else:
         _run_hyp(shard, res, dl)
     return res
+
+
+# keyword segments climbing away from a node that was named by its anchor
+ANCHORED_CASES = [
+    ("a:\n  b:\n    c: 1\n    d: &v 2\n",
+     ["a.b[&v]", "a.b[&v][parent()]", "a.b[&v][parent(2)]",
+      "a.b[&v][parent()][parent()]", "/a/b[&v][parent(2)]",
+      "/a/b[&v][parent()][parent()]", "a.*[&v][parent(2)]",
+      "**[&v][parent(2)]", "a.b[&v][parent(3)]"]),
+    ("l:\n  - - &v 1\n    - 2\n  - - 3\n",
+     ["l[0][&v]", "l[0][&v][parent()]", "l[0][&v][parent(2)]",
+      "/l[0][&v][parent(2)]", "l.*[&v][parent(2)]",
+      "l[0][&v][parent()][parent()][parent()]"]),
+    ("&k top:\n  in: &v x\n  o: *v\n",
+     ["&k", "&k.in", "top[&v][parent()]", "top[&v][parent(2)]",
+      "/&k[&v][parent()]"]),
+]
 
 
 def _run_hyp(shard, res, dl):
